@@ -16,6 +16,12 @@ for _sep, _alt in (("/", "\\"), ("\\", "/"), ("/", None)):
                 "sep": _sep, "alt_sep": _alt, "case_sensitive": _cs, "win_paths": _win})
 
 
+# quick tier: one representative per dimension (default convention; case-insensitive; swapped separators +
+# case-insensitive + drive letters; no alternate separator + drive letters).  Thorough tier: all 12.
+QUICK_PROVIDER_CONFIGS = (0, 2, 7, 9)
+CONFIG_SETS = {}
+
+
 def provider_class(eng, cfg, base="cloudsync.provider:Provider", extra=None):
     modname, clsname = base.split(":")
     info = eng.repo.module(modname).classes[clsname]
